@@ -182,6 +182,11 @@ class Inference(Serializable):
         """
         state = copy.deepcopy(self.__dict__)
 
+        # the shared state spaces are caches (cached properties that are rebuilt from ``coal`` and ``x0`` on demand);
+        # they are not part of the state
+        for key in ['_lineage_counting_state_space', '_block_counting_state_space']:
+            state.pop(key, None)
+
         for key in ['coal', 'loss', 'resample']:
             state[f'{key}_pickled'] = dill.dumps(state[key])
             state.pop(key)
